@@ -1263,4 +1263,144 @@ Section Proofs.
     step enf d (OAdd x) = (Err TypeErr, d).
   Proof. intro V. simpl. unfold add. now rewrite V. Qed.
 
+  (* ================= set algebra on keys ================= *)
+  (* Membership of an item is membership of its key when the flag is off, or
+     when the items in question agree with the map on shared keys. *)
+  Definition loose (e : bool) (m : dict) (xs : list item) : Prop :=
+    e = false \/ forall x y, In x xs -> lookup (key x) m = Some y -> x = y.
+
+  Lemma member_loose e m xs x : loose e m xs -> In x xs ->
+    member e m (AItem x) = has (key x) m.
+  Proof.
+    intros L Hx. unfold Spec.member. rewrite has_lookup.
+    destruct (lookup (key x) m) as [y|] eqn:E; auto. destruct L as [->|L]; auto.
+    rewrite (L x y Hx E), ieqb_refl. apply orb_true_r.
+  Qed.
+
+  Lemma loose_incl e m xs ys : incl ys xs -> loose e m xs -> loose e m ys.
+  Proof. intros H [L|L]; [now left|right]. intros x y Hx. apply L. now apply H. Qed.
+
+  Lemma keys_vals d : Inv d -> keys d = map key (vals d).
+  Proof. intro I. rewrite (inv_pairs d I) at 1. unfold pairs. now rewrite map_map. Qed.
+
+  Lemma keys_filter (f : K * item -> bool) (g : K -> bool) (d : dict) :
+    (forall e, In e d -> f e = g (fst e)) -> keys (filter f d) = filter g (keys d).
+  Proof.
+    induction d as [|e d IH]; simpl; intro H; auto.
+    rewrite (H e) by auto. destruct (g (fst e)); simpl; rewrite IH; auto.
+  Qed.
+
+  Lemma keys_the_map_In xs k : In k (keys (the_map xs)) <-> In k (map key xs).
+  Proof. rewrite the_map_put_all, keys_put_all_In. simpl. tauto. Qed.
+
+  Lemma omap_keys enf d p eb b : Inv d -> omap enf d p = Ok (eb, b) ->
+    forall k, In k (keys b) <-> In k (map key (oitems d p)).
+  Proof.
+    intros I. destruct p; simpl.
+    - intro H. inversion H; subst. intro k. rewrite (keys_vals _ (inv_the_map xs)). tauto.
+    - destruct (fresh enf xs) eqn:F; [|discriminate]. intro H. inversion H; subst.
+      apply fresh_ok in F. destruct F as [-> _]. intro k. apply keys_the_map_In.
+    - destruct (fresh enf xs) eqn:F; [|discriminate]. intro H. inversion H; subst.
+      apply fresh_ok in F. destruct F as [-> _]. intro k. apply keys_the_map_In.
+    - intro H. inversion H; subst. intro k. rewrite (keys_vals _ I). tauto.
+  Qed.
+
+  (* difference *)
+  Lemma alg_sub eb d b : Inv d -> loose eb b (vals d) ->
+    keys (filter (fun e => negb (member eb b (AItem (snd e)))) d)
+    = filter (fun k => negb (has k b)) (keys d).
+  Proof.
+    intros I L. apply keys_filter. intros [k y] He. cbn [fst snd]. f_equal.
+    rewrite (member_loose eb b (vals d)); auto.
+    - now rewrite <- (inv_key d k y I He).
+    - apply in_map_iff. exists (k, y); auto.
+  Qed.
+
+  (* intersection, in place *)
+  Lemma alg_iand eb d b : Inv d -> loose eb b (vals d) ->
+    keys (filter (fun e => member eb b (AItem (snd e))) d)
+    = filter (fun k => has k b) (keys d).
+  Proof.
+    intros I L. apply keys_filter. intros [k y] He. cbn [fst snd].
+    rewrite (member_loose eb b (vals d)); auto.
+    - now rewrite <- (inv_key d k y I He).
+    - apply in_map_iff. exists (k, y); auto.
+  Qed.
+
+  Lemma keys_fresh_filter enf (f : item -> bool) its r : fresh enf (filter f its) = Ok r ->
+    forall k, In k (keys r) <-> exists x, In x its /\ key x = k /\ f x = true.
+  Proof.
+    intros F k. apply fresh_ok in F. destruct F as [-> _]. rewrite keys_the_map_In, in_map_iff.
+    split; intros [x H]; exists x; rewrite filter_In in *; tauto.
+  Qed.
+
+  (* intersection *)
+  Lemma alg_and enf d its r : loose enf d its ->
+    fresh enf (filter (fun x => member enf d (AItem x)) its) = Ok r ->
+    forall k, In k (keys r) <-> In k (keys d) /\ In k (map key its).
+  Proof.
+    intros L F k. rewrite (keys_fresh_filter _ _ _ _ F). split.
+    - intros [x (Hx & <- & M)]. rewrite (member_loose _ _ _ _ L Hx) in M.
+      split; [now apply has_In|now apply in_map].
+    - intros [Hk Hi]. apply in_map_iff in Hi. destruct Hi as [x [<- Hx]].
+      exists x. split; auto. split; auto.
+      rewrite (member_loose _ _ _ _ L Hx). now apply has_In.
+  Qed.
+
+  Lemma alg_not_in enf d its r : loose enf d its ->
+    fresh enf (filter (fun x => negb (member enf d (AItem x))) its) = Ok r ->
+    forall k, In k (keys r) <-> In k (map key its) /\ ~ In k (keys d).
+  Proof.
+    intros L F k. rewrite (keys_fresh_filter _ _ _ _ F). split.
+    - intros [x (Hx & <- & M)]. rewrite (member_loose _ _ _ _ L Hx) in M.
+      apply negb_true_iff in M. split; [now apply in_map|]. intro H. apply has_In in H. congruence.
+    - intros [Hi Hk]. apply in_map_iff in Hi. destruct Hi as [x [<- Hx]].
+      exists x. split; auto. split; auto.
+      rewrite (member_loose _ _ _ _ L Hx). apply negb_true_iff.
+      destruct (has (key x) d) eqn:M; auto. apply has_In in M. contradiction.
+  Qed.
+
+  (* union *)
+  Lemma alg_or enf d its r : Inv d -> fresh enf (vals d ++ its) = Ok r ->
+    forall k, In k (keys r) <-> In k (keys d) \/ In k (map key its).
+  Proof.
+    intros I F k. apply fresh_ok in F. destruct F as [-> _].
+    now rewrite keys_the_map_In, map_app, in_app_iff, <- keys_vals.
+  Qed.
+
+  (* reflected difference *)
+  Lemma alg_rsub enf d p eb b r : Inv d -> omap enf d p = Ok (eb, b) ->
+    loose enf d (oitems d p) -> spec_rsub enf d p = Ok r ->
+    forall k, In k (keys r) <-> In k (keys b) /\ ~ In k (keys d).
+  Proof.
+    intros I O L. unfold Spec.spec_rsub. intros F k.
+    pose proof (omap_keys _ _ _ _ _ I O k) as Kb.
+    destruct p; simpl in *; try (rewrite (alg_not_in _ _ _ _ L F); tauto).
+    destruct (fresh enf xs) as [b0|] eqn:Fx; [|discriminate]. inversion O; subst b0 eb.
+    assert (Lb : loose enf d (vals b)).
+    { eapply loose_incl; [|exact L]. intros x Hx. apply fresh_ok in Fx. destruct Fx as (-> & Ib & _).
+      assert (Hk : In (key x) (keys (the_map xs))).
+      { rewrite (keys_vals _ Ib). now apply in_map. }
+      pose proof (inv_lookup_own _ x Ib Hx) as Lx.
+      clear - Lx keqb_eq. revert Lx. rewrite the_map_put_all.
+      assert (G : forall d0, (forall y, lookup (key x) d0 = Some y -> y = x -> In x xs \/ In x (vals d0)) ->
+                  lookup (key x) (put_all xs d0) = Some x -> In x xs \/ In x (vals d0)).
+      { induction xs as [|z xs IH]; simpl; intros d0 H0 Hl.
+        - right. apply lookup_In in Hl. apply in_map_iff. exists (key x, x); auto.
+        - destruct (IH (put (key z) z d0)) as [H|H]; auto.
+          + intros y Hy Ey. subst y. right. apply lookup_In in Hy.
+            apply in_map_iff. exists (key x, x); auto.
+          + apply in_map_iff in H. destruct H as [[j w] [E Hw]]. simpl in E. subst w.
+            unfold dict_set in Hw. destruct (has (key z) d0).
+            * apply in_map_iff in Hw. destruct Hw as [[j' w'] [E Hq]]. simpl in E.
+              destruct (keqb (key z) j'); inversion E; subst; auto.
+              right. apply in_map_iff. exists (j, x); auto.
+            * apply in_app_iff in Hw. destruct Hw as [Hw|[Hw|[]]].
+              -- right. apply in_map_iff. exists (j, x); auto.
+              -- inversion Hw; subst. auto. }
+      intro Lx. destruct (G [] (fun y Hy _ => match lookup_In _ _ _ Hy with end) Lx) as [H|[]]. exact H. }
+    rewrite (alg_not_in _ _ _ _ Lb F). rewrite <- (keys_vals b); [tauto|].
+    apply fresh_ok in Fx. tauto.
+  Qed.
+
 End Proofs.
